@@ -79,12 +79,13 @@ Definition sb_flat_values (b : sbuf) : list num :=
   | o0 :: rest => let '(s, e) := chase o0 rest in slice s e (sb_buffer_values b)
   end.
 
-(* buffer_inner_offsets: chase through buffer_offsets[1:-1], then slice the
-   last level [start : stop+1].  With a single level the last level is the
-   first one and start/stop are its own first and last *values*. *)
+(* buffer_inner_offsets: a single level of offsets is already the innermost
+   one; otherwise chase through buffer_offsets[1:-1], then slice the last level
+   [start : stop+1] *)
 Definition sb_inner_offsets (b : sbuf) : list nat :=
   match sb_buffer_offsets b with
   | [] => []
+  | [o0] => o0
   | o0 :: rest =>
       let '(s, e) := chase o0 (removelast rest) in
       slice s (e + 1) (last (o0 :: rest) [])
